@@ -236,6 +236,16 @@ pub mod generics {
         B(PhantomData<T>),
     }
     #[derive(TypeInfo)]
+    pub struct TwoUnused<A, B> {
+        pub x: u8,
+        pub _p: PhantomData<(A, B)>,
+    }
+    #[derive(TypeInfo)]
+    pub struct UsesTwoUnused {
+        pub a: TwoUnused<u64, bool>,
+        pub b: TwoUnused<super::basic::Tup, u8>,
+    }
+    #[derive(TypeInfo)]
     pub struct UsesPh {
         pub t: TuplePh<u32>,
         pub e: EnumPh<u64>,
@@ -571,6 +581,7 @@ pub fn all() -> Vec<(&'static str, PortableRegistry)> {
         ("modules", reg_of::<generics::UsesInner>()),
         ("boxed_param", reg_of::<generics::UsesBoxedParam>()),
         ("phantom", reg_of::<generics::UsesPh>()),
+        ("two_unused", reg_of::<generics::UsesTwoUnused>()),
         ("calls", reg_of::<calls::Outer>()),
         ("reach", reg_of::<reach::Top>()),
         ("compact_as", reg_of::<compact_as::All>()),
